@@ -47,6 +47,10 @@ def check(ctx: Ctx) -> None:
     from .c10 import r7 as c10_r7
     ctx.shared(c10_r7, "C10.R7", "C06.R9", "the collector's metadata read is never served from a cache")
     data_writes_protected(ctx, "C06.R10")
+    # a file that disappeared between queueing and commit (e.g. collected after its marker expired) fails the commit: the
+    # commit-time existence check dominates the manifest that would reference it
+    from .c11 import appended_files_must_exist
+    appended_files_must_exist(ctx, "C06.R11")
 
 
 def data_writes_protected(ctx: Ctx, rid: str) -> None:
